@@ -179,6 +179,19 @@ def oracle(ctx, seeds=None):
             m = impl.burgers.model(); msh = impl.mesh.unimesh(ncell=n, length=1.0); W = [u]
         else:
             m = impl.pool('euler1d', gamma=g); msh = impl.mesh.unimesh(ncell=n, length=1.0); W = [r, u, p]
+        # the conversions leave the caller's arrays alone (a state converted twice is converted from the same numbers)
+        def conv():
+            Wa = [np.array(w, dtype=float) for w in W]; Wk = [w.copy() for w in Wa]
+            Qa = [np.array(x, dtype=float) for x in m.prim2cons(Wa)]
+            okp = all(np.array_equal(a_, b_) for a_, b_ in zip(Wa, Wk))
+            Qk = [q_.copy() for q_ in Qa]
+            m.cons2prim(Qa)
+            return okp, all(np.array_equal(a_, b_) for a_, b_ in zip(Qa, Qk))
+        okc, outc = impl.guarded(conv)
+        res.case(('conversion-leaves-arguments', which))
+        if okc and not (outc[0] and outc[1]):
+            res.fail(which + ':conversion-modifies-its-argument', "%s overwrote the arrays it was given" % ('prim2cons' if not outc[0] else 'cons2prim'),
+                     dict(kind='conversion-leaves-arguments', model=which, W=[np.asarray(w).tolist() for w in W], gamma=g))
         def run():
             f = impl.field.fdata(m, msh, [np.array(x, dtype=float) for x in m.prim2cons([np.array(w, dtype=float) for w in W])])
             keep = [np.array(d, dtype=float).copy() for d in f.data]
